@@ -90,6 +90,7 @@ int main(int argc, char** argv){
       eqi(id + " splinetable_read_key(int) of a present key fails iff read_key returns false", rc != 0, !tr); eqi(id + " splinetable_read_key(int) value", got, tgot);
       got = 77; rc = ir_splinetable_read_key((char*)&h, 0, kmiss, (char*)&got); escaped(id + " splinetable_read_key(missing)"); tr = ir_t_read_key_int((char*)&u, kmiss, (char*)&tgot);
       eqi(id + " splinetable_read_key of a missing key fails iff read_key returns false", rc != 0, !tr);
+      { vr64 dgot = 0; rc = ir_splinetable_read_key((char*)&h, 1, kmiss, (char*)&dgot); escaped(id + " splinetable_read_key(double, missing)"); eqi(id + " splinetable_read_key(double) of a missing key fails like read_key returns false", rc != 0, 1); }
       for (char* bad : {kres, klow}) { rc = ir_splinetable_write_key((char*)&h, 0, bad, (char*)&v); escaped(id + " splinetable_write_key(rejected key)"); ir_t_write_key_int((char*)&u, bad, v); thr = exc_pending; exc_pending = 0;
         eqi(id + " splinetable_write_key of a rejected key fails iff write_key throws", rc != 0, thr); same(id + " store after rejected write_key:", u, *TT(h)); }
       ir_t_destroy((char*)&u); ir_splinetable_free((char*)&h); balanced(id);
